@@ -419,7 +419,47 @@ def evaluate(sess, call):
     except Exception as e:   # noqa: BLE001 - every exception is an outcome here
         # (type, message and the source position the exception carries: all part of what the caller sees)
         return ['exc', type(e).__name__, str(e)[:200], getattr(e, 'line', None), getattr(e, 'col', None)], 2 + phase_of(e, call), e
-    return canon(v), (1 if v is None else 0), None
+    c = canon(v)
+    scribble(v)
+    return c, (1 if v is None else 0), None
+
+
+def scribble(v):
+    """what a caller does with a result afterwards: ordinary DOM edits of the returned object (they must not reach
+    into what later calls return)"""
+    import cssutils
+    import cssutils.prodparser as pp
+    # (the edits run production parsers of their own: the shared push-back state the history is measured on is put back)
+    p = pp.tokenizer._pushed
+    pushed, saved = list(p), list(pp.savedTokens)
+    try:
+        _scribble(v)
+    finally:
+        pp.tokenizer._pushed = pushed if isinstance(p, list) else iter(pushed)
+        pp.savedTokens[:] = saved
+
+
+def _scribble(v):
+    import cssutils
+    try:
+        if isinstance(v, cssutils.css.CSSStyleSheet):
+            v.media.appendMedium('tv')
+            v.media.mediaText = 'print, tv'
+            v.title = 'scribbled'
+            v.add('zz{top:0}')
+            for r in list(v.cssRules)[:3]:
+                if r.type == r.STYLE_RULE:
+                    r.style.setProperty('left', '9px')
+                    r.selectorList.appendSelector('zz')
+                elif r.type == r.MEDIA_RULE:
+                    r.media.appendMedium('braille')
+                    r.add('zz{top:0}')
+            v.namespaces['zz'] = 'http://zz'
+        elif isinstance(v, cssutils.css.CSSStyleDeclaration):
+            v.setProperty('left', '9px')
+            v['top'] = '8px'
+    except Exception:    # noqa: BLE001 - an edit may be refused; only its reach matters
+        pass
 
 
 # ---- reference: the same call in a fresh state under the same explicit settings
@@ -918,6 +958,7 @@ def run(ctx):
                        % (len(INPUTS), len(FAULTY), len(QUERIES), len(CONSTRUCTS), len(EDITS), len(COMBINES), len(battery(0)), ngen))
     tokenizer_macros_family(ctx)
     registry_paths_family(ctx)
+    serialiser_fault_family(ctx)
     histories = []
     # directed histories first: every single fault / construction followed by the battery, in both modes
     singles = ([('mparse', i) for i in NO_FETCH] + [('query', i) for i in range(N_STATIC['queries'])]
@@ -1070,6 +1111,110 @@ def registry_paths_family(ctx):
             diff = [(battery[i], ref[1][i], got[i]) for i in range(len(battery)) if got[i] != ref[1][i]]
             ctx.violation('history-dependent-result', {'family': 'registry-paths', 'build': name, 'reference_build': ref[0]},
                           'same registered profiles, different verdicts (pair, reference, this build): %r' % diff, KNOWN_PRED)
+
+
+def serialiser_fault_family(ctx):
+    """a serialisation that ends in an exception (raised by a user callable or a DOM object of the user's, at any nesting
+    depth) leaves the shared serialiser as it was: the probe sheets serialise as before once the preferences and profiles
+    are back.  Search only."""
+    import cssutils
+    from harness import impl
+    probes = ['a{color:red;left:0} b{top:1px}', '@media print{a{color:red} @page{margin:0}} c{d:e}', '@page :left{margin:1px;@top-left{content:"x"}} a{b:c}',
+              '@font-face{font-family:x;src:url(a)} a{b:c}', '@variables{x:1px} a{left:var(x)}']
+
+    class Fault(Exception):
+        pass
+
+    def battery():
+        out = []
+        for t in probes:
+            sh = cssutils.parseString(t)
+            out.append((sh.cssText, [r.cssText for r in sh.cssRules], sh.cssRules[0].cssText))
+        out.append(cssutils.parseStyle('color:red;left:0').cssText)
+        return out
+
+    def raising_validator(v):
+        raise Fault('validator')
+
+    def f_validonly(text):
+        def run():
+            cssutils.profile.addProfile('x-c12-fault', {'x-c12-f': raising_validator})
+            cssutils.ser.prefs.validOnly = True
+            try:
+                sh = cssutils.parseString(text, validate=False)
+                sh.cssRules[0].validating = True if hasattr(sh.cssRules[0], 'validating') else None
+                for r in sh.cssRules:
+                    for st in ([r.style] if hasattr(r, 'style') else []) + [x.style for x in getattr(r, 'cssRules', []) if hasattr(x, 'style')]:
+                        st.validating = True
+                sh.cssText
+            finally:
+                cssutils.ser.prefs.useDefaults()
+                cssutils.profile.removeProfile('x-c12-fault')
+        return run
+
+    def f_sabotaged(text, what):
+        def run():
+            sh = cssutils.parseString(text)
+            rules = [r for r in sh.cssRules] + [x for r in sh.cssRules for x in getattr(r, 'cssRules', [])]
+            victim = [r for r in rules if hasattr(r, 'style') and r.style.length][-1]
+            prop = victim.style.getProperties()[0]
+
+            class Bad(type(prop)):
+                pass
+            setattr(Bad, what, property(lambda self: (_ for _ in ()).throw(Fault(what))))
+            prop.__class__ = Bad
+            (sh.cssText if what != 'rule' else victim.cssText)
+        return run
+
+    def f_pref(text, name, value):
+        def run():
+            setattr(cssutils.ser.prefs, name, value)
+            try:
+                cssutils.parseString(text).cssText
+            finally:
+                cssutils.ser.prefs.useDefaults()
+        return run
+    faults = {}
+    for t in ('a{x-c12-f:1;color:red}', '@media print{a{x-c12-f:1}}', '@page{x-c12-f:1;@top-left{x-c12-f:2}}'):
+        faults['raising validator, validOnly: ' + t] = f_validonly(t)
+    for t in ('a{color:red}', '@media tv{a{color:red}}', '@media tv{@media print{a{color:red}}}', '@page{margin:0;@top-left{color:red}}', '@font-face{font-family:x}'):
+        for what in ('propertyValue', 'name', 'priority', 'literalname', 'cssText'):
+            faults['property.%s raises: %s' % (what, t)] = f_sabotaged(t, what)
+        for name, value in (('indent', None), ('propertyNameSpacer', None), ('lineSeparator', None), ('listItemSpacer', 5), ('indentClosingBrace', Fault)):
+            faults['prefs.%s=%r: %s' % (name, value, t)] = f_pref(t, name, value)
+    impl.reset(raise_exceptions=True)
+    impl.fresh_profiles()
+    ref = battery()
+    raised = 0
+    for name, run in faults.items():
+        for mode in (True, False):
+            impl.reset(raise_exceptions=mode)
+            ctx.case(('serialiser-fault', name, mode))
+            try:
+                run()
+                hit = False
+            except Exception:   # noqa: BLE001 - the injected fault or what it caused
+                hit = True
+            raised += hit
+            impl_mode = cssutils.log.raiseExceptions
+            cssutils.log.raiseExceptions = True
+            try:
+                got = battery()
+            except Exception as e:   # noqa: BLE001
+                got = 'raised %s: %s' % (type(e).__name__, e)
+            if got != ref:
+                d = next((i for i, (a, b) in enumerate(zip(ref, got)) if a != b), None) if isinstance(got, list) else None
+                ctx.violation('history-dependent-result', {'family': 'serialiser-fault', 'fault': name, 'raising_mode': mode, 'fault_raised': hit},
+                              'the probe battery after the failed serialisation differs: %r, before %r' % (
+                                  got[d] if d is not None else got, ref[d] if d is not None else None), KNOWN_PRED)
+                impl.reset()
+                import importlib   # a fresh serialiser for the next fault
+                cssutils.ser._level = 0
+            if impl_mode != mode:
+                ctx.violation('error-mode-not-restored', {'family': 'serialiser-fault', 'fault': name, 'raising_mode': mode}, 'raiseExceptions is %r afterwards' % impl_mode, KNOWN_PRED)
+    ctx.extra['serialiser_faults'] = {'faults': len(faults) * 2, 'raised': raised}
+    impl.reset()
+    impl.fresh_profiles()
 
 
 def tokenizer_macros_family(ctx):
